@@ -104,7 +104,14 @@ def build(scratch, group):
     pkgs = sorted(set([pkg] + (registry.HARNESS_EXTRA.get(pkg, []))))
     ov = make_overlay(scratch, pkgs, instr_pkgs)
     out = os.path.join(scratch, "t_" + hashlib.md5(repr(group).encode()).hexdigest()[:8] + ".test")
-    cmd = ["go", "test", "-c", "-vet=off", "-overlay", ov, "-o", out]
+    # The go command (GOFLAGS=-mod=mod) rewrites go.mod when a harness imports a module directly that go.mod
+    # lists as "// indirect" (the PostgreSQL stage of C18 imports jackc/pgproto3): let it write to a scratch copy
+    # (-modfile; go.sum is taken from the .sum file next to it), never to the repository.
+    modfile = os.path.join(scratch, "gomod_" + hashlib.md5(repr(group).encode()).hexdigest()[:8] + ".mod")
+    shutil.copyfile(os.path.join(REPO, "go.mod"), modfile)
+    if os.path.exists(os.path.join(REPO, "go.sum")):
+        shutil.copyfile(os.path.join(REPO, "go.sum"), modfile[:-4] + ".sum")
+    cmd = ["go", "test", "-c", "-vet=off", "-overlay", ov, "-modfile", modfile, "-o", out]
     if tags:
         cmd += ["-tags", tags]
     cmd += ["./" + pkg]
